@@ -29,19 +29,40 @@ CHECKS = {
          "TLC trace validation of real executions with call-backs"),
 }
 
-NOT_YET = {
- "C04": "check under construction in this round (DetTrace equality with the canonical run); see DESIGN.md §6 C04",
- "C06": "check under construction in this round (Cycles.tla table validation); see DESIGN.md §6 C06",
- "C08": "check under construction in this round (TieredOrder.tla table validation); see DESIGN.md §6 C08",
- "C11": "check under construction in this round (ConnectRules.tla table validation); see DESIGN.md §6 C11",
- "C12": "check under construction in this round (Attrs.tla table validation); see DESIGN.md §6 C12",
- "C14": "check under construction in this round (MosaikFaults.tla, crash-point enumeration); see DESIGN.md §6 C14",
- "C15": "check under construction in this round (Adapters.tla table validation); see DESIGN.md §6 C15",
- "C17": "check under construction in this round (MosaikRT.tla on the virtual clock); see DESIGN.md §6 C17",
- "C18": "check under construction in this round (BulkConnect.tla, scripted random); see DESIGN.md §6 C18",
+NOT_YET = {}
+
+PURE_NOTE = ("Trusted base: TLC and the table recorder (checks/pure.py), which calls the real functions of /repo's working tree. "
+             "Exhaustive only within the bounded input space named in the evidence's coverage.rule.")
+
+CHECKS.update({
+ "C04": ("§6 C04", "Equality of every simulator's (time, inputs) sequence with the canonical run, decided by TLC (DetTrace.tla) for every variant run: reply interleavings, start orders, connect order, lazy off, cache off, debug on, shipped LocalProxy, shipped RemoteProxy over fake streams; all runs are additionally judged by the reference semantics so that differences are attributed to open findings (D16, D20) by reviewed signatures.",
+         "TLC trace comparison (DetTrace) of real executions across schedules and configurations"),
+ "C06": ("§6 C06", "Semantic definition of an unresolved cycle (graph-theoretic, cross-checked inside the spec against the delay-algebra formulation) in Cycles.tla; the verdict of the real World.run() is recorded for every connection multigraph over 2-3 simulators x group placements (exhaustive within the bound) plus seeded 3-4 simulator scenarios and validated by TLC row by row, including the cycle named in the error.",
+         "exhaustive bounded enumeration + TLC table validation against Cycles.tla"),
+ "C08": ("§6 C08", "Pointwise (semantic) order of delays in TieredOrder.tla; results of the real <, ==, >, <=, min, + on all 216 intervals (every same-class pair, every type-correct sum, every time+interval) validated by TLC: trichotomy, converse, transitivity, soundness w.r.t. arrival times, raising only on incomparable pairs, min order-independent, + equals the specification's Compose, action law, monotonicity; associativity of Compose model-checked on the bounded domain.",
+         "exhaustive table validation by TLC against TieredOrder.tla"),
+ "C11": ("§6 C11", "ConnectRules.tla states when connect() must reject; 12k real World.connect() calls (placements incl. sibling and cousin groups x attribute kinds x time_shifted x weak x initial data x any_inputs x multi-pair calls) validated by TLC; rejected calls are followed by a run compared with the scenario containing only the accepted pairs (no data-flow left behind). Run-time distinctness of sibling groups is judged by C01.",
+         "exhaustive cross-product table validation by TLC against ConnectRules.tla"),
+ "C12": ("§6 C12", "Attrs.tla gives a DECLARATIVE classification rule (accept iff exactly one pair of partitions agrees with the given lists and the type's defaults), deliberately not the code's procedure; every description over a small attribute universe x any_inputs x 3 types and every finite/co-finite set-algebra expression is validated by TLC against it.",
+         "exhaustive table validation by TLC against Attrs.tla"),
+ "C14": ("§6 C14", "Crash points x failure kinds x transports (shipped RemoteProxy+Channel over fake streams, AsyncProxy, shipped LocalProxy) x schedules on the real run()/shutdown(); TLC judges every execution with the C14 clauses of the reference semantics (no hang, error or logged remote error, every other simulator stopped exactly once, loop closed, nothing pending); the shutdown protocol incl. the open findings D11/D23 is model-checked in MosaikFaults.tla.",
+         "fault enumeration judged by TLC trace validation + TLC model checking of MosaikFaults.tla"),
+ "C15": ("§6 C15", "Adapters.tla states rejection and the per-version request shape; 288 rows (16 version strings x explicit api_version x remote stub behind the shipped RemoteProxy / in-process stubs with v3 and old signatures x type present/absent) with the exact requests received and the comparison with a 3.0 stub are validated by TLC.",
+         "exhaustive table validation by TLC against Adapters.tla"),
+ "C17": ("§6 C17", "Real-time runs on a virtual strictly increasing clock (no flakiness): pacing lower bound at every step begin, completion without internal error (incl. simulators in groups), set_event semantics (demand created / ignored with warning / refused outside real-time mode), no too-slow report for instant runs (open finding D19), rt_strict runs equal to a prefix of the non-strict runs (DetTrace); pacing/polling/set_event mechanism model-checked in MosaikRT.tla.",
+         "TLC trace validation on a virtual clock + TLC model checking of MosaikRT.tla"),
+ "C18": ("§6 C18", "BulkConnect.tla models the helpers as nondeterministic processes (invariants + termination model-checked); the random source of mosaik.util is scripted so that ALL choice sequences for small sizes plus seeded larger runs (incl. exactly filled capacities) go through the real functions; TLC replays every recorded call sequence against the specification's rules.",
+         "TLC model checking of BulkConnect.tla + exhaustive choice-sequence enumeration validated by TLC"),
+})
+EXTRA = {
+ "C04": "Trusted base: TLC, the harness transports (the shipped LocalProxy / RemoteProxy / Channel code runs unchanged; sockets replaced by hand-fed streams). Deterministic behaviours are functions of (simulator, request kind, step index). Known findings are identified by signatures in harness/signatures.py.",
+ "C14": "Trusted base: TLC, the fake-stream transport. The OS-level clause (no process or socket left behind) is not observed: sockets/processes are replaced by streams fed by the harness.",
+ "C17": "Trusted base: TLC, the virtual clock (mosaik.scheduler.perf_counter replaced by the harness). Jitter of a real clock is out of scope.",
 }
 
 def main():
+    global EXTRA_NOTES
+    EXTRA_NOTES = dict({k: PURE_NOTE for k in ("C06", "C08", "C11", "C12", "C15", "C18")}, **EXTRA)
     checks = []
     for pid, (ref, text, tech) in sorted(CHECKS.items()):
         checks.append({
@@ -77,6 +98,6 @@ def main():
     json.dump(m, open(path, "w"), indent=1)
     print("wrote", path, len(checks), "checks")
 
-EXTRA_NOTES = {}
+EXTRA_NOTES = dict({k: PURE_NOTE for k in ("C06", "C08", "C11", "C12", "C15", "C18")}, **EXTRA)
 if __name__ == "__main__":
     main()
